@@ -63,6 +63,20 @@ claim("C19", "DESIGN.md 6 C19", "C19_wait_until_gate (Pw): polls are (deadline,P
 claim("C20", "DESIGN.md 6 C20", "C20_*: after a Pending return with no insertion since, every awaited child has been polled - selective and non-selective strategies, join/try_join, merge, zip, groups. Partial: 'a never-completing child does not block its siblings' second sentence is covered by the selective-polling invariant + correspondence/monitor, not a separate theorem; race/race_ok poll every unfinished child each poll by the shape of their scan." + COMMON)
 P["C04"]["text"] += COMMON
 
+CO = (" The model is an acceptor at await-resolution granularity (Model/CoStream.v); the check derives the event list (source items, closure calls with their "
+      "arguments, completions, drops, result) from every run of the real drivers under random wake-only and adversarial schedules - 14 adapter stacks x "
+      "for_each / try_for_each / collect, limits 1..3 and none, take 0..len+1, pending sources, failing and panicking closures, early drops - and requires "
+      "that the acceptor accepts it; a monitor re-evaluates the property on every trace. The theorems hold for every accepted event list and every adapter "
+      "configuration. Partial: the poll-level behaviour of futures_buffered::FuturesUnordered and of the compiler-generated async state machines is not "
+      "modelled, only their observable events.")
+claim("C13", "DESIGN.md 6 C13", "C13_within_limit (in-flight <= limit), C13_result_structured (a result only when nothing is in flight), C13_at_most_once (no closure called twice for an item), C13_nothing_after_end. Partial: the at-least-once half at Result is carried by the acceptor's Result rule + monitor, not yet a separate theorem." + CO,
+      "Coq proof of invariants over an acceptor + trace inclusion of the crate's observed runs")
+claim("C14", "DESIGN.md 6 C14", "C14_stops_taking (no source item after an error is recorded), C14_error_is_genuine (the reported error was returned by a closure future of the run), C14_result_structured / C14_ok_means_exhausted (Ok only with no error, nothing in flight and, without take, an exhausted source), C14_cancelled_work_never_completes." + CO,
+      "Coq proof of invariants over an acceptor + trace inclusion of the crate's observed runs")
+claim("C15", "DESIGN.md 6 C15", "C15_enumerate_is_source_index, C15_source_items_numbered, C15_collect_all, C15_closures_once, C15_take_at_most / C15_take_exactly / C15_take_zero_takes_nothing (take(n): at most n items taken, result only after source end or n items or an error; take(0) takes none - the repaired behaviour)." + CO,
+      "Coq proof of invariants over an acceptor + trace inclusion of the crate's observed runs")
+
+
 def main():
     checks = []
     na = []
